@@ -524,7 +524,8 @@ class Daemon(object):
                     protocol.log_wiredata(log, "daemon wiredata sending", msg)
                 conn.send(msg.data)
         except Exception as xv:
-            msg = getattr(xv, "pyroMsg", None)
+            # (pyroMsg is what the protocol layer puts on its own errors; an exception of the remote method is the caller's business)
+            msg = None if fromUserCode else getattr(xv, "pyroMsg", None)
             if msg:
                 request_seq = msg.seq
                 request_serializer_id = msg.serializer_id
